@@ -2,6 +2,7 @@ import GenjaxModel.Model.SelIO
 import GenjaxModel.Model.GfiIO
 import GenjaxModel.Model.ResampleIO
 import GenjaxModel.Model.ChainIO
+import GenjaxModel.Model.StateIO
 /-! Line-protocol driver: one S-expression per input line, one per output line. -/
 open Genjax
 
@@ -16,6 +17,9 @@ def dispatch (e : SExp) : SExp :=
   | some r => r
   | none =>
   match stepChain e with
+  | some r => r
+  | none =>
+  match stepState e with
   | some r => r
   | none => .list [.atom "bad-op"]
 
